@@ -36,6 +36,9 @@ OK01(e) ==
            /\ OkPkt(e.dec_poll, e.packet)
            /\ e.dec_poll.total = Len(b)
            /\ e.dec_poll.body = SubSeq(b, HdrW(b) + 1, Len(b))
+           \* the async encoder (socket-like sink: vectored writes, a short first write) produced bytes that decode
+           \* to the packet as well
+           /\ (Has(e, "dec_of_async_enc") => OkPkt(e.dec_of_async_enc, e.packet))
 
 \* ---- C02
 PartsOK(e) == \A i \in 1..Len(e.parts) : e.parts[i].written = e.parts[i].reported /\ e.parts[i].err = ""
@@ -50,6 +53,7 @@ LensOK(e, bodylen, valid) ==
             /\ e.enc.k = "ok"
             /\ e.encode_len.k = "ok" /\ e.encode_len.val = e.enc.len
             /\ HeaderOK(e.enc)
+            /\ (Has(e, "enc_async") => e.enc_async.k = "ok" /\ e.enc_async.len = e.enc.len)
             /\ PartsOK(e)
         ELSE
             /\ IsErrE(e.enc, "InvalidVarByteInt")       \* refused, nothing emitted
@@ -88,6 +92,14 @@ OK09(e) ==
         /\ \A i \in 1..Len(e.async) : e.async[i].res.k = "ok" /\ e.async[i].sink = e.sync.bytes
         /\ StreamOK(e.sync.bytes, e.stream) /\ StreamOK(e.sync.bytes, e.stream1)
 
+\* two encodings in flight on one thread (the first suspended by a not-ready sink while the second runs): each sink
+\* receives exactly its own packet
+OK09Interleave(e) ==
+    (ValidPacket(e.fam, e.pa) /\ ValidPacket(e.fam, e.pb)) =>
+        /\ e.sync_a.k = "ok" /\ e.sync_b.k = "ok"
+        /\ e.run.a.res.k = "ok" /\ e.run.a.sink = e.sync_a.bytes
+        /\ e.run.b.res.k = "ok" /\ e.run.b.sink = e.sync_b.bytes
+
 \* ---- C10
 OK10(e) ==
     ValidPacket(e.fam, e.packet) =>
@@ -98,6 +110,9 @@ OK10(e) ==
            IN  /\ r.st = "ok" /\ r.v = e.packet /\ r.used = Len(b)
                /\ q.st = "ok" /\ q.v = e.packet /\ q.used = Len(b)
                /\ Minimal(SubSeq(b, 2, HdrW(b)))
+               \* what reaches a peer is what the async encoder hands to the socket: the same conformant bytes under
+               \* every sink behaviour (vectored writes, short first write, not-ready answers)
+               /\ \A i \in 1..Len(e.async) : e.async[i].res.k = "ok" /\ e.async[i].sink = b
                /\ b[1] = ControlByte(e.packet)
 
 \* C10: every enum variant that is written as a wire number and every property, in every packet type that may
@@ -116,8 +131,22 @@ CoverageOK(e) ==
         /\ <<"v5", "Protocol", "V500">> \in codes
         /\ \A s \in PropSets : \A k \in PropKeys(s) \cup {"user"} : <<s, k>> \in props
 
+\* ---- every packet size (SizeSweep): a QoS-0 PUBLISH with topic "t" and remaining length e.rl
+SweepCtl(e) == 48 + (IF e.dup THEN 8 ELSE 0) + (IF e.retain THEN 1 ELSE 0)
+SweepOK(e) ==
+    /\ e.enc.k = "ok"
+    /\ CASE Prop = "C01" -> \A i \in 1..Len(e.dec) : e.dec[i].ok /\ e.dec[i].total = e.enc.len
+         [] Prop = "C02" -> /\ e.encode_len.k = "ok" /\ e.encode_len.val = e.enc.len
+                            /\ e.enc.len = 1 + VarIntLen(e.rl) + e.rl
+                            /\ HeaderOK(e.enc)
+         [] Prop = "C09" -> \A i \in 1..Len(e.async) : e.async[i].k = "ok" /\ e.async[i].same
+         [] Prop = "C10" -> /\ SubSeq(e.enc.hdr, 1, 1 + VarIntLen(e.rl)) = <<SweepCtl(e)>> \o EncVarInt(e.rl)
+                            /\ \A i \in 1..Len(e.async) : e.async[i].k = "ok" /\ e.async[i].same
+         [] OTHER -> TRUE
+
 Accept(e) ==
     CASE e.ev = "RoundTrip" -> (Prop = "C01" => OK01(e))
+      [] e.ev = "SizeSweep" -> SweepOK(e)
       [] e.ev = "Lens"      -> (Prop = "C02" => OK02(e))
       [] e.ev = "LensShape" -> (Prop = "C02" => OK02Shape(e))
       [] e.ev = "BigShape"  -> (CASE Prop = "C01" -> BigEncOK(e) /\ BigDecOK(e, FALSE)
@@ -126,6 +155,7 @@ Accept(e) ==
                                   [] OTHER -> TRUE)
       [] e.ev = "LensHuge"  -> (Prop = "C02" => (e.body_hi > 0 => IsErrE(e.encode_len, "InvalidVarByteInt")))
       [] e.ev = "Enc"       -> (CASE Prop = "C09" -> OK09(e) [] Prop = "C10" -> OK10(e) [] OTHER -> TRUE)
+      [] e.ev = "Interleave" -> (Prop = "C09" => OK09Interleave(e))
       [] e.ev = "Coverage"  -> (Prop = "C10" => CoverageOK(e))
       [] e.ev = "End"       -> l = Len(Rec)
       [] OTHER -> FALSE
